@@ -87,6 +87,15 @@ func (r *Rtmp2RtspRemuxer) FeedRtmpMsg(msg base.RtmpMsg) {
 			if samplerate, ok := meta.Find("audiosamplerate").(float64); ok {
 				r.audioSampleRate = int(samplerate)
 			}
+			// metadata中有audiocodecid但没有audiosamplerate时，使用默认采样率（和没有metadata时一致）
+			if r.audioSampleRate < 0 {
+				switch r.audioPt {
+				case base.AvPacketPtG711U, base.AvPacketPtG711A:
+					r.audioSampleRate = pcmDefaultSampleRate
+				case base.AvPacketPtOpus:
+					r.audioSampleRate = opusDefaultSampleRate
+				}
+			}
 		}
 		return
 	case base.RtmpTypeIdAudio:
